@@ -177,4 +177,8 @@ pub proof fn lemma_reaches_routed_step<const K: usize>(a: AArena<K>, h: Map<usiz
     if c != last { lemma_reaches_desc(a, h, c, x, last); }
     lemma_child_unique(a, d, pk, c, q, last);
 }
+// every input whose evaluation passes node n satisfies q
+pub open spec fn edge_covers<const K: usize>(a: AArena<K>, root: usize, n: usize, q: Polytope, in_dim: usize) -> bool {
+    forall|h: Map<usize, nat>, x: V| #![trigger reaches(a, h, root, x, n)] ranked_down(a, h) && x.len() == in_dim && reaches(a, h, root, x, n) ==> q.sat(x)
+}
 // ---- end reach_spec ----
